@@ -23,6 +23,7 @@ import happysimulator.parallel.simulation as _psim  # noqa: E402
 from happysimulator.core.entity import Entity  # noqa: E402
 from happysimulator.core.event import Event  # noqa: E402
 from happysimulator.core.event_heap import EventHeap  # noqa: E402
+from happysimulator.core.sim_future import SimFuture  # noqa: E402
 from happysimulator.core.simulation import Simulation  # noqa: E402
 from happysimulator.core.temporal import Instant  # noqa: E402
 from happysimulator.parallel import ParallelSimulation, PartitionLink, SimulationPartition  # noqa: E402
@@ -59,7 +60,8 @@ ASSUMPTIONS = [
 EXPECTED_PROBES = ["probe.cross_event_delivered", "probe.event_on_window_boundary", "probe.idle_partition_then_cross",
                    "probe.window_eq_min_latency", "probe.pingpong", "probe.independent_partitions", "probe.threads_mode",
                    "probe.daemon_events_with_end_time", "probe.nonzero_start_time", "probe.end_given_as_duration",
-                   "probe.outage_dropped_a_delivery"]
+                   "probe.outage_dropped_a_delivery", "probe.future_parked_across_windows", "probe.link_declared_twice",
+                   "probe.decoy_model_constructed"]
 SHRINK_SKIP = ("n_kinds",)
 
 LAT_NS = [1_000_000, 100_000_000, 700_000_000, 1_000_000_000]
@@ -126,6 +128,10 @@ def gen(rng, tier):
             if h["shape"] == "gen":
                 h["steps"] = [{"d_ns": rng.choice([0, 1, w_ns, w_ns - 1, w_ns // 3 + 1, 2 * w_ns + 1]), "emits": emit(e, k)}
                               for _ in range(rng.randint(1, 3))]
+                for st in h["steps"]:
+                    if rng.random() < 0.25:
+                        # the wait is a SimFuture park; a callback event of the same partition resolves it d_ns later
+                        st["fut"] = True
             handlers[f"{e}:{k}"] = h
     base_times = [0, w_ns - 1, w_ns, w_ns + 1, 2 * w_ns, 3 * w_ns + 1, 10 * w_ns, 25 * w_ns - 1, 40 * w_ns]
     initial = [{"t": rng.choice(base_times), "to": rng.randrange(n_ent), "k": rng.randrange(max(1, n_kinds - 2)),
@@ -153,7 +159,10 @@ def gen(rng, tier):
     mode = "threads" if rng.random() < (0.03 if tier == "quick" else 0.08) else "serial"
     if mode == "threads":  # real threads are slow: keep the horizon short
         end = min(end, 15 * w_ns) if end is not None else 15 * w_ns
-    return {"parts": parts, "n_kinds": n_kinds, "links": links, "window": window, "handlers": handlers,
+    dup_links = [k for k in sorted(links) if rng.random() < 0.1]      # the same directed pair declared twice
+    decoy = rng.choice(["before", "after"]) if rng.random() < 0.15 else None
+    return {"dup_links": dup_links, "decoy": decoy,
+            "parts": parts, "n_kinds": n_kinds, "links": links, "window": window, "handlers": handlers,
             "initial": initial, "end": end, "start": start, "use_duration": use_duration, "outages": outages, "mode": mode,
             "sched_seed": rng.randrange(2**31), "workers": rng.randint(1, n_parts)}
 
@@ -185,7 +194,17 @@ class PEntity(Entity):
         step = 0
         for st in h.get("steps", []):
             evs = self._w.make(self.now.nanoseconds, st.get("emits", []))
-            if evs:
+            if st.get("fut"):
+                fut = SimFuture()
+                evs.append(Event.once(time=Instant(self.now.nanoseconds + st["d_ns"]), event_type="fut.resolve",
+                                      fn=lambda e, fut=fut: fut.resolve(None), daemon=self._w.sc.get("end") is not None and st.get("daemon", False)))
+                t_park = self.now.nanoseconds
+                yield 0.0, evs
+                yield fut
+                w_ns = self._w.w_ns
+                if (self.now.nanoseconds - self._w.sc.get("start", 0)) // w_ns > (t_park - self._w.sc.get("start", 0)) // w_ns:
+                    self._w.fut_cross_window += 1
+            elif evs:
                 yield st["d_ns"] / 1e9, evs
             else:
                 yield st["d_ns"] / 1e9
@@ -201,6 +220,9 @@ class World:
         self.ent_part = [p for p, n in enumerate(sc["parts"]) for _ in range(n)]
         self.entities = [PEntity(i, self) for i in range(len(self.ent_part))]
         self.cross_sent = 0
+        self.fut_cross_window = 0
+        lm = min(sc["links"].values()) if sc["links"] else 100_000_000
+        self.w_ns = (lm if sc["window"] is None else max(1, int(sc["window"] * 1e9))) or 1
 
     def make(self, now, emits):
         out = []
@@ -243,6 +265,10 @@ def _validate(sc):
         a, b = key.split(">")
         if not (0 <= int(a) < len(sc["parts"]) and 0 <= int(b) < len(sc["parts"])) or a == b or lat <= 0:
             raise InvalidScenario("bad link")
+    if any(k not in sc["links"] for k in sc.get("dup_links", [])):
+        raise InvalidScenario("duplicate declaration of an undeclared link")
+    if sc.get("decoy") not in (None, "before", "after"):
+        raise InvalidScenario("bad decoy")
     lmin = min(sc["links"].values()) if sc["links"] else None
     if sc["window"] is not None and (lmin is None or sc["window"] <= 0 or sc["window"] > lmin / 1e9):
         raise InvalidScenario("window out of range")
@@ -523,15 +549,20 @@ def run_parallel(sc):
     w = World(sc)
     end = sc.get("end")
     names = [f"P{i}" for i in range(len(sc["parts"]))]
-    parts = []
-    idx = 0
-    for p, n in enumerate(sc["parts"]):
-        parts.append(SimulationPartition(name=names[p], entities=w.entities[idx: idx + n]))
-        idx += n
-    links = []
-    for key in sorted(sc["links"]):
-        a, b = (int(x) for x in key.split(">"))
-        links.append(PartitionLink(source_partition=names[a], dest_partition=names[b], min_latency=sc["links"][key] / 1e9))
+
+    def topology(world):
+        parts = []
+        idx = 0
+        for p, n in enumerate(sc["parts"]):
+            parts.append(SimulationPartition(name=names[p], entities=world.entities[idx: idx + n]))
+            idx += n
+        links = []
+        for key in sorted(sc["links"]) + sorted(sc.get("dup_links", [])):
+            a, b = (int(x) for x in key.split(">"))
+            links.append(PartitionLink(source_partition=names[a], dest_partition=names[b], min_latency=sc["links"][key] / 1e9))
+        return parts, links
+
+    parts, links = topology(w)
     lg = logging.getLogger("happysimulator.core.simulation")
     tt = _TimeTravel()
     old_level = lg.level
@@ -542,8 +573,17 @@ def run_parallel(sc):
         with _Patch(sc.get("mode", "serial"), sc.get("sched_seed", 0)) as patch, warnings.catch_warnings():
             warnings.simplefilter("ignore")
             kw, _eff = _time_kwargs(sc)
-            ps = ParallelSimulation(partitions=parts, links=links or None, window_size=sc["window"] if links else None,
-                                    max_workers=sc.get("workers"), **kw)
+            def build(world_parts, world_links):
+                return ParallelSimulation(partitions=world_parts, links=world_links or None,
+                                          window_size=sc["window"] if world_links else None,
+                                          max_workers=sc.get("workers"), **kw)
+
+            # a second, never-run model with the same partition names (its own entities): constructing it must not matter
+            if sc.get("decoy") == "before":
+                build(*topology(World(sc)))
+            ps = build(parts, links)
+            if sc.get("decoy") == "after":
+                build(*topology(World(sc)))
             for to, ev in w.initial():
                 ps.schedule(ev, partition=names[w.ent_part[to]])
             for to, ev in w.outage_events():
@@ -619,6 +659,9 @@ def run(sc):
         "probe.nonzero_start_time": int(bool(sc.get("start"))),
         "probe.end_given_as_duration": int(bool(sc.get("use_duration")) and end is not None),
         "probe.outage_dropped_a_delivery": int(bool(sc.get("outages")) and _outage_effective(sc, seq)),
+        "probe.future_parked_across_windows": int(seq.fut_cross_window > 0),
+        "probe.link_declared_twice": int(bool(sc.get("dup_links")) and cross > 0),
+        "probe.decoy_model_constructed": int(bool(sc.get("decoy")) and cross > 0),
         "sched.task_orders_or_baton_switches": switches,
         "windows": total_windows,
         "cross_events": cross,
